@@ -98,7 +98,14 @@ func zzAmplStep(svc zzUDPService, allow func(net.Addr) bool, payload []byte) {
 	}
 	if !zzSymbolic() {
 		// native twin (real x/time/rate limiter): after k earlier grants at most 4-k responses remain
-		zzAssert(writes <= zzBurst-k, "every response datagram is preceded by its own grant from the rate limiter")
+		// (each response must have consumed one of the four tokens: probe how many are left)
+		left := 0
+		for i := 0; i < zzBurst+1; i++ {
+			if allow(&net.UDPAddr{IP: ip1, Port: 5000 + i}) {
+				left++
+			}
+		}
+		zzAssert(k+writes+left <= zzBurst, "every response datagram is preceded by its own grant from the rate limiter")
 		return
 	}
 	granted1 := zzGrants - grantsBefore
